@@ -113,6 +113,17 @@ func makeRemoteSource(sourceType string, u *url.URL, subPath string) (RemoteSour
 		}
 	}
 
+	// These two rules are also enforced by ParseRemoteSource, but they must
+	// hold for addresses assembled from parts with MakeRemoteSource too.
+	if u.User != nil {
+		return RemoteSource{}, fmt.Errorf("must not use username or password in URL portion")
+	}
+	if _, err := url.ParseQuery(u.RawQuery); err != nil {
+		// The source type implementations below read the query leniently,
+		// which would let an argument hide inside a malformed pair.
+		return RemoteSource{}, fmt.Errorf("invalid URL query string syntax in %q: %w", u.String(), err)
+	}
+
 	// The printed form of a remote source is "<URL path>//<sub-path>?<query>",
 	// and that text must lead back to the same package and sub-path. That
 	// only works for a hierarchical URL with a host, without a fragment (in
